@@ -25,11 +25,11 @@ def run(chk):
     items = []
     k = 0
     for cell in ("interval", "triangle", "quadrilateral", "tetrahedron"):
-        for var in (range(5) if quick else range(20)):
-            if quick and cell == "tetrahedron" and var not in (0, 4):
+        for var in (range(6) if quick else range(24)):
+            if quick and cell == "tetrahedron" and var not in (0, 4, 5):
                 continue
             items.append({"builder": "harness.corpus.realise_c05", "c05": {"cell": cell, "variant": var}, "seed": chk.seed * 31 + k,
-                          "scalar": "float64", "ninputs": 1 if quick else 2, "geom": "affine", "max_entities": 2,
+                          "scalar": "float64", "ninputs": 1 if quick else 2, "geom": "affine", "max_entities": 2, "npairs": 1, "nperm": 1,
                           "poison_disabled": True, "label": f"c05/{cell}/v{var}"})
             k += 1
     recs = s5.run_items(chk, items, nworkers=4)
